@@ -12,6 +12,8 @@ import os
 import time
 
 import parsegen
+import random
+import testcorpus
 import verif as V
 
 
@@ -42,6 +44,10 @@ def run(pid, tier, seed):
     verdict = V.Verdict(pid)
     work = V.workdir("parse")
     prs = parsegen.pairs(seed, 6000 if tier == "quick" else 150000)
+    # + the (format, input) pairs of the repository's own tests, and its formats against its inputs (inputs only)
+    hf, hp, hi = testcorpus.harvest(V.REPO)
+    rr = random.Random(seed)
+    prs = prs + hp + [(f, rr.choice(hi)) for f in hf for _ in range(2 if tier == "quick" else 12)]
     fmts = sorted(set(f for f, _ in prs if 0 not in f))
     dele = delegated(work, fmts, verdict)
     with open(os.path.join(work, "in.txt"), "w") as f:
